@@ -83,6 +83,10 @@ func ReplayTxnPath(path []TxnStep) (diff string) {
 			if err := write(sctx, prevNext); err != nil {
 				return where + ": the write inside the transaction fails: " + err.Error()
 			}
+		case "SessNoop":
+			if _, err := coll.UpdateOne(sctx, bson.D{{Key: "_id", Value: int32(77)}}, bson.D{{Key: "$set", Value: bson.D{{Key: "v", Value: int32(-5)}}}}); err != nil {
+				return where + ": an update that matches nothing fails inside the transaction: " + err.Error()
+			}
 		case "SessRead":
 			v, err := readV(sctx)
 			if err != nil || v != st.SeenSess {
